@@ -7,6 +7,7 @@
 //	n, err := exh.New(exh.Options{N: 4})        // N validators (real Ed25519 + BLS keys), genesis processed, cache prepared
 //	n.ABI.S = &exh.Script{...}                   // scripted answers of the ABI double for the next calls (zero value: all succeed)
 //	b := n.NextValid(exh.Build{})                // VALID successor of the current tip (slot, generator, signature, roots,
+//	                                             // Build{By: v} picks v's next slot; Options.Weights sets unequal BFT weights;
 //	                                             // validatorsHash, maxHeightPrevoted, maxHeightGenerated, eventRoot for n.ABI.S)
 //	n.Sign(b.Header, v)                          // (re-)sign + recompute ID after altering a field
 //	r := n.ProcessValidated(b, removeTemp)       // synchronous; r.Err / r.Panic (recovered) ; also n.Process, n.DeleteBlock
@@ -282,6 +283,7 @@ type Options struct {
 	FS            vfs.FS // default vfs.NewMem()
 	Dir           string // default "db"
 	GenesisTime   uint32 // if non-zero, fixed genesis timestamp (replays / crash enumeration re-runs)
+	Weights       []uint64 // BFT weight per genesis validator (default 1 each); unequal weights give finality jumps
 }
 
 type Ev struct {
@@ -350,6 +352,9 @@ func New(opt Options) (*Node, error) {
 	lv := []*labi.Validator{}
 	for i := 0; i < opt.N; i++ {
 		v := MakeValidator(i)
+		if i < len(opt.Weights) && opt.Weights[i] > 0 {
+			v.Weight = opt.Weights[i]
+		}
 		n.Vals = append(n.Vals, v)
 		lv = append(lv, v.Labi())
 		total += v.Weight
@@ -537,6 +542,7 @@ type Build struct {
 	Agg       *blockchain.AggregateCommit // default: empty commit at the node's maxHeightCertified
 	MHG       *uint32                     // maxHeightGenerated override (default: generator's last height on this chain)
 	StateRoot []byte                      // default: script's StateRoot or the empty hash
+	By        *Validator                  // if set: use the first slot (after SkipSlots) assigned to this validator
 }
 
 // NextValid builds a block that satisfies every rule against the current tip/state and the script n.ABI.S.
@@ -547,6 +553,16 @@ func (n *Node) NextValid(bo Build) *blockchain.Block {
 	g := n.GeneratorAt(ts)
 	if g == nil {
 		panic("exh: no generator for slot")
+	}
+	if bo.By != nil {
+		for k := 0; k < 1000 && !bytes.Equal(g.Addr, bo.By.Addr); k++ {
+			slot++
+			ts = n.Exec.GetSlotTime(slot)
+			g = n.GeneratorAt(ts)
+		}
+		if !bytes.Equal(g.Addr, bo.By.Addr) {
+			panic("exh: validator has no slot")
+		}
 	}
 	mhp, _, mhc := n.Heights()
 	emptyHash := crypto.Hash([]byte{})
